@@ -21,7 +21,7 @@ RULE = ("histograms of every class (Histogram1D, Histogram2D, HistogramND 3-4D, 
         "(name, title, axis names, nested JSON values, unicode) x keep_missed, and collections, are serialised with to_json / save_json "
         "(+ load_json through a scratch file), parsed and compared attribute by attribute bit-exactly; the parsed object is serialised "
         "again and the documents compared; documents declaring physt_compatible around the running version (older, equal, pre/post/dev "
-        "releases, newer patch / minor / major, components gaining a digit) must be accepted / refused; non-trivial = histogram with non-zero "
+        "releases, newer patch / minor / major, components gaining a digit) must be accepted / refused; histogram subclasses defined by the user after earlier documents were read; non-trivial = histogram with non-zero "
         "missed values or custom errors or custom metadata and a non-default dtype / binning type; distinct by hash of the document")
 ASSUMPTIONS = ["float128 histograms are not serialised (to_json raises TypeError: refusal, not a violation)",
                "packaging.version is trusted for the ordering of version strings"]
